@@ -1,12 +1,15 @@
 #!/usr/bin/env python3
-"""mkmutant.py PROP NAME FILE OLD NEW EXPECT  — create selftest/PROP/NAME.patch replacing the
+"""mkmutant.py PROP NAME FILE OLD NEW EXPECT [OLD2 NEW2 ...]  — create selftest/PROP/NAME.patch replacing the
 single occurrence of OLD by NEW in /repo/FILE (unified diff), and NAME.expect (regex or CONTROL)."""
 import sys, difflib, os
 prop, name, file, old, new, expect = sys.argv[1:7]
+more = sys.argv[7:]  # further OLD NEW pairs applied to the same file
 src = open(os.path.join("/repo", file)).read()
-if src.count(old) != 1:
-    sys.exit(f"OLD occurs {src.count(old)} times in {file}")
-dst = src.replace(old, new)
+dst = src
+for o, n in [(old, new)] + list(zip(more[0::2], more[1::2])):
+    if dst.count(o) != 1:
+        sys.exit(f"OLD occurs {dst.count(o)} times in {file}: {o[:40]!r}")
+    dst = dst.replace(o, n)
 d = difflib.unified_diff(src.splitlines(True), dst.splitlines(True), "a/" + file, "b/" + file, n=3)
 os.makedirs(f"/verif/selftest/{prop}", exist_ok=True)
 open(f"/verif/selftest/{prop}/{name}.patch", "w").write("".join(d))
